@@ -18,9 +18,9 @@ def conc(v):
     return 1000 + v
 
 
-def expected_rows(case):
+def expected_rows(case, key="rows"):
     out = []
-    for r in case["rows"]:
+    for r in case[key]:
         if r["null"]:
             out.append(None)
         else:
@@ -97,6 +97,11 @@ def job(args):
                 exp = want if kind == "int64" else [None if r is None else [None if e is None else "e%d" % e for e in r] for r in want]
                 norm = [None if r is None else [None if e is None else (int(e) if kind == "int64" else (e.decode() if isinstance(e, bytes) else str(e))) for e in r] for r in got]
                 if norm != exp:
+                    if version == 1 and not case["model_ok"] and not case.get("misplaced"):
+                        # the transcription of _assemble_objects says exactly what the code returns for this cut
+                        mech = expected_rows(case, "mech")
+                        mexp = mech if kind == "int64" else [None if r is None else [None if e is None else "e%d" % e for e in r] for r in mech]
+                        sig["result_is_what_the_mechanism_model_computes"] = norm == mexp
                     out["viol"].append((dict(sig, what="rows assembled differently from standard record assembly"), ci))
     return out
 
@@ -105,8 +110,8 @@ def job(args):
 # MAP columns (spec/MapNested.tla): two leaves with independent page cuts
 # ---------------------------------------------------------------------------------------------------------
 
-def map_expected(case):
-    return [None if r["null"] else {"k%d" % k: (None if v == 0 else conc(v)) for k, v in r["pairs"]} for r in case["rows"]]
+def map_expected(case, key="rows"):
+    return [None if r["null"] else {"k%d" % k: (None if v == 0 else conc(v)) for k, v in r["pairs"]} for r in case[key]]
 
 
 def map_spec(case, version):
@@ -170,6 +175,8 @@ def map_job(args):
                 out["viol"].append((dict(sig, what="reading the nested column raised", exc=type(e).__name__), ci))
                 continue
             if got != want:
+                if version == 1 and not case["model_ok"] and not case.get("misplaced"):
+                    sig["result_is_what_the_mechanism_model_computes"] = got == map_expected(case, "mech")
                 out["viol"].append((dict(sig, what="rows assembled differently from standard record assembly"), ci))
     return out
 
